@@ -1,0 +1,62 @@
+//go:build verif
+
+// Contracts for package openflow13, checked by /verif/govc (comment-only file; see /verif/DESIGN.md).
+// Names in the binder lists are contract-local and bound by position.
+
+package openflow13
+
+//@ property C16 min-obligations 20
+
+// ---------------------------------------------------------------------------------------------
+// C16 bit-range helpers (nx_util.go)
+
+//@ func encodeOfsNbitsStartEnd(start, end) (r) [C16]
+//@   requires start <= end && end - start < 64 && start < 1024
+//@   ensures r>>6 == start
+//@   ensures r&0x3f == end - start
+
+//@ func encodeOfsNbits(ofs, nBits) (r) [C16]
+//@   requires ofs < 1024 && nBits >= 1 && nBits <= 64
+//@   ensures r>>6 == ofs
+//@   ensures r&0x3f == nBits - 1
+
+//@ func decodeOfs(w) (r) [C16]
+//@   ensures r == w>>6
+
+//@ func decodeNbits(w) (r) [C16]
+//@   ensures r == (w&0x3f) + 1
+
+//@ func NewNXRange(start, end) (r) [C16]
+//@   ensures r != nil && r.start == start && r.end == end
+//@   ensures fresh(r)
+
+//@ func NewNXRangeByOfsNBits(ofs, nBits) (r) [C16]
+//@   requires ofs >= 0 && ofs < 1024 && nBits >= 1 && nBits <= 64
+//@   ensures r != nil && r.start == ofs && r.end == ofs + nBits - 1
+//@   ensures fresh(r)
+
+//@ func (*NXRange).ToUint32Mask(n) (r) [C16]
+//@   requires 0 <= n.start && n.start <= n.end && n.end <= 31
+//@   ensures uint64(r) == ((uint64(1) << uint64(n.end - n.start + 1)) - 1) << uint64(n.start)
+
+//@ func (*NXRange).ToOfsBits(n) (r) [C16]
+//@   requires 0 <= n.start && n.start <= n.end && n.end <= 31
+//@   ensures r>>6 == uint16(n.start)
+//@   ensures (r&0x3f) + 1 == uint16(n.end - n.start + 1)
+
+//@ func (*NXRange).GetOfs(n) (r) [C16]
+//@   requires 0 <= n.start && n.start <= n.end && n.end <= 31
+//@   ensures r == uint16(n.start)
+
+//@ func (*NXRange).GetNbits(n) (r) [C16]
+//@   requires 0 <= n.start && n.start <= n.end && n.end <= 31
+//@   ensures r == uint16(n.end - n.start + 1)
+
+//@ func lemmaOfsNbitsRoundTrip(ofs, nBits) (o, n) [C16]
+//@   requires ofs < 1024 && nBits >= 1 && nBits <= 64
+//@   ensures o == ofs && n == nBits
+
+//@ func lemmaRangeTwoDescriptions(first, last) (w1, w2, m1, m2, o1, n1) [C16]
+//@   requires 0 <= first && first <= last && last <= 31
+//@   ensures w1 == w2 && m1 == m2
+//@   ensures o1 == uint16(first) && n1 == uint16(last - first + 1)
